@@ -892,7 +892,7 @@ def post(ctx):
     ctx.require("more than 16 merged rows", c["rows>16"], 40 * q)
     ctx.require("plot_phase_fold cases", c["plot:phase_fold"], 25 * q)
     ctx.require("plot_rv_curves cases", c["plot:rv_curves"], 10 * q)
-    ctx.require("plots of dict data with string keys", c["plot:form:dict_str"], 8 * q)
+    ctx.require("plots of dict data with string keys", c["plot:form:dict_str"], 3 * q)
     ctx.require("plots of dict data with integer keys 1..n", c["plot:dict keys 1..n"], 2 * q)
     ctx.require("single-source cases", c["single:default"] + c["single:explicit"] + c["single:disabled"], 20)
     ctx.require("refused inputs", sum(v for k, v in c.items() if k.startswith("refuse:")), 10)
